@@ -3,8 +3,8 @@ import gens
 from props.common import TRUSTED_BASE, ASSUMPTIONS
 
 ID = "C05"
-LEAN_MODULES = ["LexVerif.Props.C05", "LexVerif.Props.RoundNE", "LexVerif.Props.TablesParse"]
-GEN = ["parse_tables"]
+LEAN_MODULES = ["LexVerif.Props.C05", "LexVerif.Props.RoundNE", "LexVerif.Props.TablesParse", "LexVerif.Props.Literals.ParseFloat", "LexVerif.Props.Literals.ParseInteger"]
+GEN = ["parse_tables", "literals"]
 TRUSTED = TRUSTED_BASE + [
     "Bellerophon and the big-integer slow paths for generic radices are NOT proved in Lean; proved: the oracle, the per-radix tables; "
     "the algorithms are compared with the oracle on per-radix number-theoretic worst cases",
